@@ -110,6 +110,7 @@ type scripted struct {
 	// connection per host that request can never be sent (the operation would hang on itself)
 	open    int
 	overlap string
+	paths   []string // method and path of every request
 }
 
 // trackedBody counts as open until it is closed or has reported EOF.
@@ -148,6 +149,7 @@ func (s *scripted) RoundTrip(req *http.Request) (*http.Response, error) {
 	s.mu.Lock()
 	defer s.mu.Unlock()
 	s.requests++
+	s.paths = append(s.paths, req.Method+" "+req.URL.Path)
 	if s.open > 0 && s.overlap == "" {
 		s.overlap = req.Method + " " + req.URL.Path
 	}
